@@ -1,55 +1,66 @@
 /-
-Compose — theorems that span several per-property models, so that the framework says something about Distributed
-Shampoo as a whole rather than about isolated pieces.  Nothing is re-modelled: `Model/Compose.lean` only instantiates
-the parameters the per-property models leave open, and every proof below is a chain of the per-property theorems
-(`C01.newton_error_honest`, `newton_padding_zero`, `newton_symmetric`; `C03.gate_spec`; `C04.refresh_uses_current_stats`,
-`precond_change_only_on_multiples`; `C02.low_refines_spec`; `C08.batched_roots_are_map`, `root_padding_invariant_*`;
-`C13.pmap_result_independent_of_D`, `sharded_compute_eq`).
+Compose — theorems that span several per-property models, so that the framework says something about the optimizers as
+a whole rather than about isolated pieces.  Nothing is re-modelled: `Model/Compose.lean` only instantiates the parameters
+the per-property models leave open (root routine, gate, statistics update, batch position, kernels), and every proof is a
+chain of the per-property theorems.  Lemma files: `Lemmas/Compose.lean` (slot automaton, parameter, devices),
+`ComposePad.lean` (padding invariance of C01's routines), `ComposeForms.lean` (other root routines, tree, entry level),
+`ComposeTF.lean` (Tearfree blocks), `ComposeQuant.lean`, `ComposeFD.lean`.  Namespaces carry the id of the check that audits
+them (`lean_stage(extra_props=(…, "Compose"))` in c02, c03, c09, c13, c14, c15).
 
-Namespaces carry the id of the check that audits them (`lean_stage(extra_props=("Compose",))`):
+WHAT COMPOSES (Distributed Shampoo)
+`ComposeProps.C03` — the stored preconditioner of one slot.  C04's automaton (statistics interval, any refresh-interval
+  function, `steps == 1` shortcut, `efficient_cond` carry) with C03's gate IS C03's slot machine
+  (`schedule_step_is_slot_machine_step`, `…_run_…`).  For every history / schedule / time the stored value is the initial
+  one or the routine's output for the statistics current at a refresh step, with an accepted (non-NaN, `< thr`) error and
+  the routine's certificate: Newton — `|X^p · A_d − I_s| ≤ err` for the ridge actually used
+  (`stored_preconditioner_is_identity_or_honest_root`, C01 `newton_error_honest`; zero on padding, symmetric; at ℚ);
+  the `matrix_size == 1` branch (`…_onebyone_form`); eigh (`…_eigh_form`, `n·err/ridge`); any certified routine
+  (`…_is_initial_or_certified_root`); the quantized triple — stored = `quantize X`, dequantized within half a bucket
+  (`stored_quantized_is_initial_or_quantized_honest_root`, C11; `selectTriple` = the one select).  Good stays good.
+`ComposeProps.C09` — frequent-directions slots: `stored_fd_sketch_brackets_accepted_history` (C03's warm-start / reset
+  slot machine × C09's guarded `_fd_update_root`: the stored sketch brackets the discounted covariance of exactly the
+  ACCEPTED refresh gradients; restart at accepted reset steps).  Tearfree Sketchy under C04's cadence:
+  `sketchy_run_brackets_refresh_covariance`.
+`ComposeProps.C02` — one parameter = its slots `b·k + j` + C02's update half.  `Low = Spec` with gate ∘ root in place of
+  C02's abstract root (`composed_low_refines_spec`), the slots' statistics are C02's flat list, every matrix the update of
+  step `t` uses is the identity or an honest root of a refresh step `r ≤ t` (`r < t` sharded)
+  (`update_uses_honest_roots`, `…_dispatch` with the `1 × 1` branch as the code takes it, `…_certified_roots`), and entry by
+  entry the direction is the mode product of ITS block's slice with ITS block's preconditioners
+  (`ds_update_entry_is_block_entry`, C06 tiling).
+`ComposeProps.C13` — devices and the padded batch.  The tree-wide padded batch on `D` devices (pmap) or as pjit global
+  arrays = the per-statistic single-device routine (`distributed_equals_single_device`, `sharded_…`), for C08's Newton and
+  eigh models and — padding invariance of `InvRoot.newtonRoot` and `powerIteration` proved by simulation
+  (`newton_root_padding_invariant_c01`) — for C01's routine with honesty (`distributed_c01_roots_honest`); reported errors,
+  gate decisions and stored slots do not depend on `D` or the layout (`gate_decisions_independent_of_devices`); one whole
+  step on a parameter TREE is the map of the per-leaf steps (`tree_step_is_map_of_param_steps`, `…_newton`,
+  `tree_step_independent_of_devices`).
+`ComposeProps.C14` — resumption in sharded mode: `ds_sharded_resume_eq_uninterrupted` (C14 × C07's sharded layout fixpoint).
+WHAT COMPOSES (Tearfree)
+`ComposeProps.C15` — every entry of the update of a padded, blocked leaf is the entry computed from its block's own
+  gradient slice and stored state (`tearfree_blocked_update_is_per_block_update`, C06 `deblockify_pointwise`), the slice
+  is contiguous, and padding never changes real entries (`tearfree_padding_never_changes_real_entries`, array-level
+  adapter of C15's `zero_padding_invisible`).
 
-`ComposeProps.C03` — (1) the stored preconditioner.  C04's automaton (`Schedule.dsStep`: statistics interval, any refresh
-  interval function incl. the learning-rate scheduled one, `steps == 1` shortcut, `efficient_cond` carry) is run with C03's
-  gate (`gateKernels`) and an arbitrary root routine, then with C01's Newton model (`newtonSlotRoot`).  For every history,
-  every schedule and every time `k`, the stored preconditioner is the initial one or the Newton root `X` of the statistics
-  `A` that were current at a refresh step `r < k` (after that step's statistics update), with reported error `err < thr`
-  (not NaN) and `|X^p · A_d − I_s| ≤ err` entrywise for the ridge actually used,
-  `d = ridge_epsilon · max(max_ev, _EPSILON) · 10^(retries−1)`.
-`ComposeProps.C02` — (2) the update.  One parameter = its slots `b·k + j` (each such an automaton, slot `i` accumulating
-  C02's `statStep` of block `i / k` along the `i % k`-th preconditioned axis) + C02's update half on the preconditioners
-  stored before / after the step.  With gate ∘ Newton in place of C02's abstract root the refinement `Low = Spec` still
-  holds, the statistics lists are C02's flat list, and every matrix the mode products of step `t` are taken with is the
-  initial one or an honest root of that slot's statistics at a refresh step `r ≤ t` (`r < t` in sharded mode).
-`ComposeProps.C13` — (3) devices.  The tree-wide padded batch of C08 computed through C13's `pmapCompute` on `D` devices
-  (and the pjit variant through `shardedViews`) equals the per-statistic single-device routine, for every `D ≥ 1`, tree,
-  `max_size`; discharged without residual hypothesis for C08's Newton model and (under the `eigh` kernel spec) for the eigh
-  model.
+ADAPTERS.  C02's matrices are `Nat → Nat → α`, C01's `Fin n → Fin n → α` (`toMx` / `ofMx`), C08's tabulated `A2` (`ofA2`),
+C15's block arrays vs Mathlib matrices (`rd_matToArr`); C01's errors are field elements, C03's are `XF` (report map `rep`,
+`XF.fin` at ℚ); C08's and C01's Newton transcriptions are not identified with each other — not needed any more.
 
-`ComposeProps.C09` — (4) Tearfree Sketchy.  C04's Sketchy automaton (`sketchyStep`: one `lax.cond` on
-  `count % update_freq`) with C09's `_update_axis` as the update kernel: along the whole run the stored sketch brackets
-  the discounted covariance of exactly the gradients the cadence let through.  (Tearfree Shampoo's "roots at a refresh
-  step are those of the statistics after this step's update" is already `C15.refresh_step_roots_of_current_statistics` /
-  `C15.shampoo_cadence`, proved on C15's own model of the cadence; not repeated here.)
-
-Adapters and what stays outside.  C08 proves padding invariance for ITS OWN Newton model (`BlockDiag.rootA`), C01 proves
-honesty for `InvRoot.newtonRoot`; the two are separate transcriptions of `matrix_inverse_pth_root`.  Round 2 proves padding
-invariance of C01's routine (and of its power iteration) directly (`newton_root_padding_invariant_c01`, simulation between
-the operation records of size `N` and `s`), so `distributed_c01_roots_honest` has no residual hypothesis on the routine.  C02's matrices are `Nat → Nat → α`, C01's `Fin n → Fin n → α`: adapters `toMx` /
-`ofMx` (`Model/Compose.lean`).  C01's errors are field elements, C03's are `XF`: the report map `rep : α → XF` is a
-parameter (`XF.fin` at ℚ: `stored_preconditioner_honest_rat`).  Round 2: the `1 × 1` branch and the eigh root have their own
-forms of (1) (`stored_preconditioner_onebyone_form`, `…_eigh_form`), (2) has a form with the routine dispatched on the
-statistic size as in the code (`update_uses_honest_roots_dispatch`), and `tree_step_is_map_of_param_steps` lifts everything
-to a parameter tree.  Round 3: entry-level forms (`tearfree_blocked_update_is_per_block_update`, `ds_update_entry_is_block_entry`,
-the padding adapter `tearfree_padding_never_changes_real_entries`) and the quantized slot
-(`stored_quantized_is_initial_or_quantized_honest_root`).  NOT done: frequent-directions slots through `slotStepDep` (the
-warm-started automaton needs C09's `SvdSpec` along the reached states and DS's guarded `_fd_update_root` as the kernel —
-`sketchy_run_brackets_refresh_covariance` is the Tearfree analogue, without a gate); LOBPCG.
+WHAT DOES NOT COMPOSE / HYPOTHESES THAT STAY.  LOBPCG (`lobpcg_topk_precondition`): its top-k pairs are unconstrained inputs
+of C01's model and C01 proves nothing about the deflated problem's relation to the original one, so there is no
+certificate to carry through the gate; not routed.  The eigh form assumes no padding inside the automaton (C08 treats eigh
+padding separately under `KernelPadOK`).  External kernels stay hypotheses wherever the per-property theorems have them
+(`SvdSpec`, `EighSpec` / `EighKernelOK`, scalar roots); `MaxEvPadOK` (discharged for power iteration and the constant);
+the FD bracket includes the per-step ridge shift `_fd_update_root` adds (as in C09).  Floating-point rounding, XLA batch
+determinism and finiteness in IEEE arithmetic remain oracle-only, as in the per-property checks.
 -/
 import PrecondVerif.Lemmas.Compose
 import PrecondVerif.Lemmas.ComposePad
 import PrecondVerif.Lemmas.ComposeForms
 import PrecondVerif.Lemmas.ComposeTF
 import PrecondVerif.Lemmas.ComposeQuant
+import PrecondVerif.Lemmas.ComposeFD
+import PrecondVerif.Props.C07
+import PrecondVerif.Props.C14
 
 set_option linter.unusedSectionVars false
 
@@ -667,6 +678,41 @@ theorem tree_step_is_map_of_param_steps_newton [Field α] [LinearOrder α] [IsSt
   treeStepBatched_eq_indep (newtonBatchRoot Nw rep) (newtonBatchRoot_padding_invariant Nw rep hmax) filler D hD upd _
     dims (fun l i L prev => newtonSlotRootMx_eq_batch Nw rep (dims l i) L prev) cfg ps inp
 
+/-- **`gate_decisions_independent_of_devices`** (C13 ∘ C03 ∘ C08).  The per-matrix routine returns (root, reported error)
+pairs — any routine, so any fault history: NaN / Inf / huge errors on any subset of the statistics — and is padding
+invariant (in particular its error for one statistic does not depend on what else sits in the batch or on the replica it
+lands on).  Then for every device count `D`, `D'` and either layout (pmap all-gather, pjit global arrays): the reported
+error of every statistic, hence C03's gate decision for every slot, hence every stored slot after the gate, are those of
+the single-device per-statistic computation.  A non-finite guard that reduces over the whole per-device batch makes the
+routine's error depend on its batch neighbours, i.e. breaks the hypothesis `root_padding_invariant`-style locality of the
+routine: that is the seeded change this statement excludes. -/
+theorem gate_decisions_independent_of_devices {π : Type} (rootE : Nat → Nat → A2 α → π × Gate.XF)
+    (root_padding_invariant : ∀ N s a, s ≤ N → rootE N s a = rootE s s a) (filler filler' : Stat α) (D D' : Nat)
+    (hD : 1 ≤ D) (hD' : 1 ≤ D') (leaves : List (List (Stat α))) (thr : Gate.XF) (old : List (List π)) :
+    let single := leaves.map (·.map fun st => rootE st.size st.size st.dat)
+    (distributedTreeRoots rootE filler D leaves).map (·.map Prod.snd) = single.map (·.map Prod.snd) ∧
+      (shardedTreeRoots rootE filler' D' leaves).map (·.map Prod.snd) = single.map (·.map Prod.snd) ∧
+      gateTree thr (distributedTreeRoots rootE filler D leaves) old = gateTree thr single old ∧
+      gateTree thr (shardedTreeRoots rootE filler' D' leaves) old = gateTree thr single old := by
+  intro single
+  rw [distributed_equals_single_device rootE root_padding_invariant filler D hD,
+    sharded_equals_single_device rootE root_padding_invariant filler' D' hD']
+  exact ⟨rfl, rfl, rfl, rfl⟩
+
+/-- … and the whole composed tree step (statistics, batch roots, schedule / gate per slot, update half per leaf) is the
+same for any two device counts -/
+theorem tree_step_independent_of_devices [Field α] [LinearOrder α] [IsStrictOrderedRing α] [Inhabited α]
+    (rootB : Nat → Nat → A2 α → DShampoo.Mx α × Gate.XF) (hpad : ∀ N s a, s ≤ N → rootB N s a = rootB s s a)
+    (filler filler' : Stat α) (D D' : Nat) (hD : 1 ≤ D) (hD' : 1 ≤ D')
+    (upd : Nat → Nat → List α → List α → DShampoo.PState α → List (DShampoo.Mx α) → List (DShampoo.Mx α) →
+      Option (DShampoo.TOut α))
+    (mk : Nat → SlotK α) (dims : Nat → Nat → Nat)
+    (hroot : ∀ l i L prev, (mk l i).rootAll L prev () = rootB (dims l i) (dims l i) (tabM (dims l i) L))
+    (cfg : Schedule.DSCfg) (ps : List (ParamState α)) (inp : Nat → List α × List α) :
+    treeStepBatched rootB filler D upd mk dims cfg ps inp = treeStepBatched rootB filler' D' upd mk dims cfg ps inp := by
+  rw [treeStepBatched_eq_indep rootB hpad filler D hD upd mk dims hroot cfg ps inp,
+    treeStepBatched_eq_indep rootB hpad filler' D' hD' upd mk dims hroot cfg ps inp]
+
 /-- concrete instance: 3 statistics of sizes 2, 5, 3 in two leaves on 4 devices (one filler), `max_size = 5`; a routine
 that only reports (size, first diagonal entry) is padding invariant, and every leaf gets its own results back -/
 example :
@@ -791,3 +837,107 @@ theorem tearfree_padding_never_changes_real_entries {α : Type} [Field α] [Line
   applyAxis_padded_root eigh hp cut hcut v n k hv C' x C e hs hw hs' o i r ho hi hr
 
 end PrecondVerif.ComposeProps.C15
+
+/-! ## (5) frequent-directions slots: C03's gated warm-start / reset slot machine × C09's guarded `_fd_update_root` -/
+
+namespace PrecondVerif.ComposeProps.C09
+open PrecondVerif.FD PrecondVerif.Gate PrecondVerif.Compose Matrix
+
+variable {R : Type} [Field R] [LinearOrder R] [IsStrictOrderedRing R] [StarRing R] [TrivialStar R]
+  [StarOrderedRing R] {d k : ℕ}
+
+/-- **`stored_fd_sketch_brackets_accepted_history`.**  C03's slot machine with the stored sketch as the warm start
+(`slotRunReset`; `rf = none` is plain `slotRunDep`, `rf = some f` is `reset_preconditioner` with `reset_frequency = f`),
+kernel = C09's guarded `_fd_update_root` (`fdWarmRoot`: `dsFdUpdateRootG` on the SVD of `dsB`), reported errors and
+`efficient_cond` carries adversarial, any refresh interval, any start counter, any number of steps.  If the initial
+sketch brackets `C` (the zero sketch brackets `0`: `brackets_zero`) then after the run the stored sketch brackets
+`fdCovRun …`: the matrix obtained from `C` by `C ← β·(C_w + ridgeShift) + G̃ G̃ᵀ` at exactly the ACCEPTED refresh steps
+(`count % itv = 0`, error not NaN and `< thr`), `G̃` the padding-masked gradient factor of that step, `C_w = C` normally
+and `C_w = 0` on a reset step (the covariance restarts at each accepted reset step), and left UNTOUCHED by every other
+step — a rejected step (NaN error after D25, error ≥ threshold) neither changes the stored sketch nor enters `C`.
+`ridgeShift` is what `_fd_update_root` itself adds before decaying (per-step ridge on the active directions, re-masking):
+it is part of the bracketed matrix, exactly as in C09's one-step theorem.
+Hypotheses that stay (all C09's): the SVD meets `SvdSpec` on the matrices it is handed (stated for all inputs: an
+external kernel), `sqrt` the non-negative root, guards window containing 1, `β ≥ 0`, `padding_start ≠ 0`,
+`ridge_epsilon ≥ 0`, `error_tolerance ≥ 0`, `k ≤ d`; the initial stored state has `l ≥ 0`, `t ≥ 0` (`FdGood`). -/
+theorem stored_fd_sketch_brackets_accepted_history (svd : SvdFn R d (k + d)) (sqrt pw : R → R)
+    (hsq : ∀ x, 0 ≤ x → sqrt x * sqrt x = x) (hs0 : ∀ x, 0 ≤ sqrt x) (g : Guards R) (hlo : g.lo ≤ 1) (hhi : 1 ≤ g.hi)
+    (hgt : 0 ≤ g.thr) (cfg : DsCfg R) (hβ : 0 ≤ cfg.β) (hps : cfg.ps ≠ 0) (he : 0 ≤ cfg.ridgeEps)
+    (htol : 0 ≤ cfg.tol) (hk : k ≤ d)
+    (hsvd : ∀ (st : State R d k) (G : Mat R d d), SvdSpec (dsB sqrt cfg st G) (svd (dsB sqrt cfg st G)))
+    (thr : XF) (hthr : thr.isNaN = false) (itv : Nat) (rf : Option Nat) (zero : DsOut R d k → DsOut R d k)
+    (hz : ∀ p, (zero p).st = State.zero d k) (Gs : Nat → Mat R d d) (errOf : Nat → DsOut R d k → XF)
+    (junk : Nat → DsOut R d k) (n count : Nat) (s : Slot (DsOut R d k)) (C : Matrix (Fin d) (Fin d) R)
+    (hg : FdGood s.precond.st) (hb : Brackets s.precond.st C) :
+    let root := fdWarmRoot svd sqrt pw g cfg Gs errOf junk
+    Brackets (slotRunReset select thr itv rf zero root count s n).precond.st
+      (fdCovRun thr itv rf zero cfg Gs root count s C n) :=
+  (fd_run_brackets svd sqrt pw hsq hs0 g hlo hhi hgt cfg hβ hps he htol hk hsvd thr hthr itv rf zero hz Gs errOf junk
+    n count s C hg hb).2
+
+/-- reading `fdCovRun`: a step that is not an accepted refresh leaves the bracketed matrix (and, by C03's
+`reset_step_spec`, the stored sketch) untouched; an accepted one applies the FD recurrence, restarted from `0` on a reset
+step -/
+theorem fd_cov_run_step (thr : XF) (itv : Nat) (rf : Option Nat) (zero : DsOut R d k → DsOut R d k) (cfg : DsCfg R)
+    (Gs : Nat → Mat R d d) (root : WarmRoot (DsOut R d k)) (count : Nat) (s : Slot (DsOut R d k))
+    (C : Matrix (Fin d) (Fin d) R) (n : Nat) :
+    fdCovRun thr itv rf zero cfg Gs root count s C (n + 1) =
+      fdCovRun thr itv rf zero cfg Gs root (count + 1) (slotStepReset select thr itv rf zero count root s)
+        (if fdAccepted thr itv count (root count (warmStart rf zero count s.precond)) then
+          cfg.β • ((if isReset rf count then 0 else C) + ridgeShift cfg (warmStart rf zero count s.precond).st) +
+            toM (outer (dsMaskG cfg.ps (Gs count)))
+         else C) n := rfl
+
+end PrecondVerif.ComposeProps.C09
+
+/-! ## (6) resumption in sharded mode: C14 × C07 -/
+
+namespace PrecondVerif.ComposeProps.C14
+open PrecondVerif.Ser PrecondVerif.Layout
+
+variable {α σ G U : Type}
+
+/-- one sharded update keeps the initial layout (C07 `sharded_layout_fixpoint_steps` at one step) -/
+theorem sharded_layout_step_fixpoint (c : Cfg) (ps : List (List Nat)) (L : ShardedLayout) (hs : c.shard = true)
+    (hdims : dimsPos ps) (h : shardedInit c ps = .ok L)
+    (hacc : rootReject c (globalDims c ps).2 .update = none) : shardedStep c ps L = .ok L := by
+  have h1 := PrecondVerif.C07.sharded_layout_fixpoint_steps c ps L 1 hs hdims h hacc
+  unfold shardedSteps at h1
+  cases hst : shardedStep c ps L with
+  | error e => rw [hst] at h1; cases h1
+  | ok L' =>
+    rw [hst] at h1
+    simp only [shardedSteps, bind, Except.bind, pure, Except.pure] at h1
+    rw [Except.ok.inj h1]
+
+/-- **`ds_sharded_resume_eq_uninterrupted`** (C14 ∘ C07, sharded mode): Distributed Shampoo with
+`shard_optimizer_states` — global statistics / preconditioner arrays over the devices plus per-parameter local stats —
+for any configuration whose root is not rejected: the C07 sharded layout `L` of `sharded_init_fn` is a fixed point of the
+sharded update (`C07.sharded_layout_fixpoint_steps`), so by `C14.resume_eq_uninterrupted_of_invariant` (invariant "the
+state has layout `L`") interrupting after ANY `k` steps, serializing, restoring into a template of that layout and
+continuing yields exactly the updates and the final state of the uninterrupted run.  Hypotheses as in C14's replicated
+instance: `layoutOf` reads the layout off a state tree, states of layout `L` have one skeleton, and the value-level step
+moves the layout as C07's `shardedStep` says (tied to the real `update` by the C07 check). -/
+theorem ds_sharded_resume_eq_uninterrupted (c : Cfg) (ps : List (List Nat)) (L : ShardedLayout) (hs : c.shard = true)
+    (hdims : dimsPos ps) (hinit : shardedInit c ps = .ok L)
+    (hacc : rootReject c (globalDims c ps).2 .update = none)
+    (layoutOf : PyTree α σ → ShardedLayout) (skel : PyTree Unit σ)
+    (hskel : ∀ s, layoutOf s = L → skeleton s = skel)
+    (step : PyTree α σ → G → U × PyTree α σ)
+    (hstep : ∀ s g, layoutOf s = L → shardedStep c ps (layoutOf s) = .ok (layoutOf (step s g).2))
+    (tmpl s₀ : PyTree α σ) (h0 : layoutOf s₀ = L) (ht : layoutOf tmpl = L) (hwf : wf s₀ = true) (gs : List G)
+    (k : Nat) :
+    resume step tmpl s₀ gs k = .ok (run step s₀ gs) := by
+  have hfix := sharded_layout_step_fixpoint c ps L hs hdims hinit hacc
+  refine PrecondVerif.C14.resume_eq_uninterrupted_of_invariant step (fun s => layoutOf s = L) tmpl s₀ h0 ?_ ?_ hwf ?_ gs k
+  · intro s g hsL
+    have := hstep s g hsL
+    rw [hsL, hfix] at this
+    exact (Except.ok.inj this).symm
+  · intro s hsL
+    show skeleton s = skeleton s₀
+    rw [hskel s hsL, hskel s₀ h0]
+  · show skeleton tmpl = skeleton s₀
+    rw [hskel tmpl ht, hskel s₀ h0]
+
+end PrecondVerif.ComposeProps.C14
